@@ -77,6 +77,8 @@ std::vector<Input> make_alphabet() {
     { "call-f1", "F1[X1]", U, "valid-set", 'D' },
     { "call-f1-props", "F1[ℬ(X1)]", U, "valid-set", 'D' },
     { "call-arity", "F1[X1, X1]", U, "type-error", 'D' },
+    { "call-p1-props-fails", "P1[ℬ(X1)]", U, "value-error", 'A' },                            // property-class argument, body has no interpretation: the nested value audit FAILS
+    { "local-alpha-as-value", "∀α∈X1 card({α})=1", U, "valid-logic", 'A' },                  // uses the callee's parameter name where a value is required
     // --- failures inside nested scopes (localVars levels / enabled)
     { "nested-undeclared", "∀α∈X1 ∀β∈X1 (α=β & γ=α)", U, "type-error", 'A' },
     { "out-of-scope", "∀τ∈X1 τ=τ & τ=X1", U, "type-error", 'A' },
